@@ -64,6 +64,25 @@ func init() {
 		},
 		Undecided: []string{"exact bytes of the error reply / ban notice on the failure paths (Transaction.Read not yet under contract)", "bcrypt itself"},
 	}
+	plans["C20"] = &Plan{
+		Items: []Item{
+			{Plugin: "crash", Func: "mobius.(*ThreadedNewsYAML).writeFile"},
+			{Plugin: "crash", Func: "mobius.(*FlatNews).Write"},
+			{Plugin: "crash", Func: "mobius.(*BanFile).Add"},
+			{Plugin: "crash", Func: "mobius.(*YAMLAccountManager).Create"},
+			{Plugin: "crash", Func: "mobius.(*YAMLAccountManager).Update"},
+			{Plugin: "crash", Func: "mobius.(*YAMLAccountManager).Delete"},
+			{Plugin: "crash", Func: "mobius.(*ThreadedNewsYAML).Load", Opts: "loader"},
+			{Plugin: "crash", Func: "mobius.(*FlatNews).Reload", Opts: "loader"},
+			{Plugin: "crash", Func: "mobius.(*BanFile).Load", Opts: "loader"},
+		},
+		Decided: []string{
+			"for every persistent update (threaded news, message board, ban list, account create / update / delete): on every path of the real control flow a non-atomic write goes to a temporary name only, a temporary file replaces the live file only after its write returned nil, temporary files are truncated when opened, and success is reported only after the atomic commit step (rename into place / remove)",
+			"the loaders (threaded news, message board, ban list) perform no mutating file-system call, so a leftover temporary file is never promoted on restart",
+		},
+		Undecided:   []string{"power loss (no fsync requirement)", "two concurrent writers sharing one temporary name (the writers hold the store mutex: C19/C03)", "the YAML library's decoding of a complete file"},
+		Assumptions: []string{"crash model: a process kill preserves every completed system call; os.Rename and os.Remove are atomic; os.WriteFile may be interrupted after truncation or after any prefix", "names of live store files do not end in .tmp"},
+	}
 	plans["C17"] = &Plan{
 		Items: []Item{
 			{Plugin: "sites", Func: "hotline.(*Server).handleNewConnection", Kinds: siteKinds},
